@@ -190,6 +190,43 @@ class _IfSwapper(ast.NodeTransformer):
         return node
 
 
+class _IfSplitter(ast.NodeTransformer):
+    """with m.If(a & b): BODY  ->  with m.If(a): with m.If(b): BODY   when no Elif/Else follows that If."""
+
+    @staticmethod
+    def _ctl(st):
+        if isinstance(st, ast.With) and len(st.items) == 1 and isinstance(st.items[0].context_expr, ast.Call) and isinstance(st.items[0].context_expr.func, ast.Attribute):
+            return st.items[0].context_expr.func.attr
+        return None
+
+    def _split_block(self, body):
+        out = []
+        for k, st in enumerate(body):
+            st = self.visit(st)
+            nxt = self._ctl(body[k + 1]) if k + 1 < len(body) else None
+            if self._ctl(st) == "If" and nxt not in ("Elif", "Else"):
+                call = st.items[0].context_expr
+                if len(call.args) == 1 and not call.keywords and isinstance(call.args[0], ast.BinOp) and isinstance(call.args[0].op, ast.BitAnd) and st.items[0].optional_vars is None:
+                    a, b = call.args[0].left, call.args[0].right
+                    inner = ast.With(items=[ast.withitem(context_expr=ast.Call(func=call.func, args=[b], keywords=[]), optional_vars=None)], body=st.body)
+                    st = ast.With(items=[ast.withitem(context_expr=ast.Call(func=call.func, args=[a], keywords=[]), optional_vars=None)], body=[inner])
+            out.append(st)
+        return out
+
+    def generic_visit(self, node):
+        for field in ("body", "orelse", "finalbody"):
+            blk = getattr(node, field, None)
+            if isinstance(blk, list) and blk and isinstance(blk[0], ast.stmt):
+                setattr(node, field, self._split_block(blk))
+        if isinstance(node, ast.Try):
+            for h in node.handlers:
+                h.body = self._split_block(h.body)
+        return node
+
+    def visit(self, node):
+        return self.generic_visit(node)
+
+
 def tree_variant(src: str, transformer) -> str:
     tree = transformer.visit(ast.parse(src))
     ast.fix_missing_locations(tree)
@@ -213,6 +250,8 @@ def build(variant: str, root: str):
                     src2 = tree_variant(src, _Swapper())
                 elif variant == "ifswap":
                     src2 = tree_variant(src, _IfSwapper())
+                elif variant == "ifsplit":
+                    src2 = tree_variant(src, _IfSplitter())
                 else:
                     raise SystemExit(f"unknown variant {variant}")
                 n += 1
@@ -226,7 +265,7 @@ def build(variant: str, root: str):
 
 
 def main():
-    variants = [a for a in sys.argv[1:] if not a.startswith("--")] or ["unparse", "rename", "swap", "ifswap"]
+    variants = [a for a in sys.argv[1:] if not a.startswith("--")] or ["unparse", "rename", "swap", "ifswap", "ifsplit"]
     packs = sorted(os.path.basename(p)[:-3] for p in glob.glob(f"{VERIF}/tsa/rules/C[0-9][0-9].py"))
     for variant in variants:
         root = tempfile.mkdtemp(prefix=f"benign_{variant}_")
